@@ -6,6 +6,7 @@ nondeterministic kernel.  Every theorem quantifies over ALL event sequences and 
 import JanetModel.Stream.Lemmas
 import JanetModel.Stream.Slots
 import JanetModel.Stream.Liveness
+import JanetModel.Stream.NetLemmas
 import JanetModel.Proc.Status
 import JanetModel.Proc.SpawnLemmas
 import JanetModel.Proc.SetupLemmas
@@ -503,5 +504,171 @@ theorem close_closes_owned_once (p : ProcSt) (ops : List ProcOp) :
     by_cases hw : (p.waited || p.waiting) = true <;> simp [ProcSt.step, ProcSt.waitImpl, hw]
 
 end Spawn
+
+/-! ## sockets: net/connect, net/accept, net/accept-loop (src/core/net.c), datagrams, `:all` -/
+section Sockets
+open JanetModel.Stream.Net
+
+/-- ★ net/connect completes or raises EXACTLY at the first event that is not in the callback's `return;` group, and never
+    before: for every sequence of events and `SO_ERROR` answers, either only quiet events were delivered — then the fiber
+    is still registered and no system call was made —, or the sequence splits at its first non-quiet event `ev`, the
+    operation ends there (whatever follows is not delivered), a CLOSE raises "stream closed" without a system call, and
+    any other event makes exactly one `getsockopt(SO_ERROR)`: the stream is returned iff the answer is (0, 0), otherwise
+    the operation raises and the stream is marked JANET_STREAM_TOCLOSE.
+    `quiet` / `closeEv` are the case groups regenerated from the source (Gen.Net.connectQuiet / connectClose). -/
+theorem connect_ends_exactly_at_first_nonquiet_event (quiet closeEv : List Nat) (evs : List (AEv × SoAns)) :
+    ((∀ p ∈ evs, p.1.code ∈ quiet) ∧ runConnect quiet closeEv evs = ⟨.pending, false, 0, evs.length⟩) ∨
+    ∃ pre ev a post, evs = pre ++ (ev, a) :: post ∧ (∀ p ∈ pre, p.1.code ∈ quiet) ∧ ev.code ∉ quiet ∧
+      (runConnect quiet closeEv evs).consumed = pre.length + 1 ∧ (runConnect quiet closeEv evs).res ≠ .pending ∧
+      (ev.code ∈ closeEv → (runConnect quiet closeEv evs).res = .failed .closed ∧ (runConnect quiet closeEv evs).asks = 0) ∧
+      (ev.code ∉ closeEv → (runConnect quiet closeEv evs).asks = 1 ∧
+        ((runConnect quiet closeEv evs).res = .connected ↔ a = .ok 0) ∧
+        ((runConnect quiet closeEv evs).toclose = true ↔ a ≠ .ok 0)) := by
+  rcases split_quiet quiet evs with h | ⟨pre, ev, a, post, e, hpre, hev⟩
+  · exact Or.inl ⟨h, runConnect_quiet quiet closeEv evs h⟩
+  · right
+    refine ⟨pre, ev, a, post, e, hpre, hev, ?_⟩
+    have hr := runConnect_first quiet closeEv pre post ev a hpre hev
+    rw [e, hr]
+    by_cases hc : ev.code ∈ closeEv
+    · rw [connectStep_close quiet closeEv ev a hev hc]
+      exact ⟨rfl, by simp, fun _ => ⟨rfl, rfl⟩, fun h => absurd hc h⟩
+    · obtain ⟨h1, h2, h3, h4, _, _⟩ := connectStep_check quiet closeEv ev a hev hc
+      refine ⟨rfl, h2, fun h => absurd h hc, fun _ => ⟨?_, h3, h4⟩⟩
+      show (if (connectStep quiet closeEv ev a).asked = true then 1 else 0) = 1
+      rw [h1]; rfl
+
+/-- ★ A garbage collection never completes a connect: when the source puts INIT, MARK and DEINIT into the quiet group
+    (hypothesis, discharged from the regenerated `Gen.Net.connectQuiet` in Stream/NetCurrent.lean), any number of GC mark
+    visits of the waiting fiber — with whatever `SO_ERROR` would say at that moment — leaves the operation pending and makes
+    no system call. -/
+theorem connect_unaffected_by_gc (quiet closeEv : List Nat)
+    (hq : AEv.init.code ∈ quiet ∧ AEv.mark.code ∈ quiet ∧ AEv.deinit.code ∈ quiet) (evs : List (AEv × SoAns))
+    (h : ∀ p ∈ evs, p.1 = .init ∨ p.1 = .mark ∨ p.1 = .deinit) :
+    runConnect quiet closeEv evs = ⟨.pending, false, 0, evs.length⟩ := by
+  apply runConnect_quiet
+  intro p hp
+  rcases h p hp with e | e | e <;> rw [e]
+  · exact hq.1
+  · exact hq.2.1
+  · exact hq.2.2
+
+/-- ☆ the missing case of the source as found (`connectQuiet = [INIT, DEINIT]`): the collector's MARK visit of a fiber
+    waiting in net/connect runs the `SO_ERROR` check; while the handshake is still in progress that reports 0, so the
+    connect "completes" in the middle of a garbage collection although no readiness event was delivered.  Replayed on the
+    implementation (direct oracle `connect-completes-during-gc`). -/
+theorem connect_completes_during_gc :
+    runConnect [0, 2] [3] [(.init, .ok 0), (.mark, .ok 0)] = ⟨.connected, false, 1, 2⟩ ∧
+    runConnect [1, 0, 2] [3] [(.init, .ok 0), (.mark, .ok 0)] = ⟨.pending, false, 0, 2⟩ := by decide
+
+/-- ★ net/accept and net/accept-loop deliver every accepted connection exactly once: whatever events arrive and whatever
+    `accept4` answers, the descriptors the kernel handed to the operation are — in order — exactly those passed to handler
+    fibers followed by the one returned; an accept-loop never returns a connection to its caller, a single accept never
+    spawns a handler (so it takes at most one connection, the one it returns). -/
+theorem accept_delivers_every_connection_once (tryEv closeEv : List Nat) (loop : Bool) (evs : List (AEv × AccAns)) :
+    let t := runAccept tryEv closeEv loop evs
+    t.taken = t.handlers ++ (match t.res with | .accepted fd => [fd] | _ => []) ∧
+    (loop = true → ∀ fd, t.res ≠ .accepted fd) ∧ (loop = false → t.handlers = []) :=
+  runAccept_conserves tryEv closeEv loop evs
+
+/-- a GC mark visit (or any event outside the try / close groups) does nothing to a pending accept -/
+theorem accept_unaffected_by_gc (tryEv closeEv : List Nat) (loop : Bool) (a : AccAns)
+    (h : AEv.mark.code ∉ tryEv ∧ AEv.mark.code ∉ closeEv) :
+    acceptStep tryEv closeEv loop .mark a = ⟨.pending, none, false⟩ := acceptStep_other tryEv closeEv loop .mark a h.2 h.1
+
+/-- ★ accept-loop against the kernel, safety: for every order of arrivals, loop iterations and (refused) further
+    net/accept-loop calls, the connections handed to handlers followed by those still queued are exactly the arrivals, in
+    arrival order. -/
+theorem accept_loop_conserves (lv it : Bool) (es : List LEv) (h : noSingle es = true) :
+    (lrun lv it LSt.init es).handled ++ (lrun lv it LSt.init es).q = arrivals es := by
+  have := lrun_loop_conserves lv it es [] LSt.init ⟨rfl, rfl, rfl⟩ h
+  simpa using this.cons
+
+/-- ★ accept-loop, LIVENESS with fairness as hypothesis: the listener of an accept loop is level-triggered
+    (`janet_sched_accept`: `if (fun) janet_stream_level_triggered(stream)`; Gen.Net.acceptLoopLevelTriggered), so on every
+    infinite schedule in which the event loop keeps iterating, every connection that arrives while the loop is registered
+    is eventually handed to a handler — however many connections arrive between two iterations. -/
+theorem accept_loop_serves_every_connection (it : Bool) (sched : Nat → LEv) (fair : ∀ k, ∃ j, k ≤ j ∧ sched j = .poll)
+    (i c : Nat) (hi : sched i = .arrive c) (hloop : (lrun true it LSt.init (prefixOf sched i)).loopOn = true) :
+    ∃ m, c ∈ (lrun true it LSt.init (prefixOf sched m)).handled :=
+  level_serves_every_connection it sched fair i c hi hloop
+
+/-- ☆ why the switch to level-triggered is needed: on the default EPOLLET registration two connections arriving between
+    two loop iterations give ONE readiness report, the callback accepts one connection per report, and the second
+    connection is never served, however many iterations follow. -/
+theorem accept_loop_edge_triggered_strands (it : Bool) (n : Nat) :
+    (lrun false it LSt.init ([.startLoop, .arrive 1, .arrive 2, .poll] ++ List.replicate n .poll)).handled = [1] ∧
+    (lrun false it LSt.init ([.startLoop, .arrive 1, .arrive 2, .poll] ++ List.replicate n .poll)).q = [2] :=
+  edge_strands it n
+
+/-- ★ single net/accept on the edge-triggered listener is never stranded: because the INIT event already tries `accept4`
+    (`initTries`; Gen.Net.acceptTry contains INIT), in every reachable state a waiting accept with a non-empty queue has an
+    unreported readiness edge — the next loop iteration serves it. -/
+theorem accept_waiting_has_edge (lv : Bool) (es : List LEv) (hn : ∀ e ∈ es, e ≠ .startLoop) :
+    AcceptInv (lrun lv true LSt.init es) ∧ (lrun lv true LSt.init es).loopOn = false := by
+  have key : ∀ (es : List LEv) (s : LSt), AcceptInv s → s.loopOn = false → (∀ e ∈ es, e ≠ .startLoop) →
+      AcceptInv (lrun lv true s es) ∧ (lrun lv true s es).loopOn = false := by
+    intro es
+    induction es with
+    | nil => intro s h hl _; exact ⟨h, hl⟩
+    | cons e es ih =>
+      intro s h hl hn
+      obtain ⟨h1, h2⟩ := lstep_acceptInv lv s e h hl (hn e (by simp))
+      exact ih _ h1 h2 (fun e' he' => hn e' (by simp [he']))
+  exact key es LSt.init (fun _ hw _ => by simp [LSt.init] at hw) rfl hn
+
+/-- … and WITHOUT the try at INIT (a callback that waits for the first READ event, as the connect callback does) a
+    connection that is already queued when net/accept is called would never be reported: witness. -/
+theorem accept_without_init_try_strands (n : Nat) :
+    (lrun true false LSt.init ([.arrive 7, .poll, .startAccept] ++ List.replicate n .poll)).returned = [] := by
+  rw [lrun_append true false [.arrive 7, .poll, .startAccept] (List.replicate n .poll) LSt.init]
+  have h0 : lrun true false LSt.init [.arrive 7, .poll, .startAccept] = ⟨[7], false, false, true, [], []⟩ := by decide
+  rw [h0]
+  induction n with
+  | zero => rfl
+  | succ k ih =>
+    simp only [List.replicate_succ, lrun]
+    have : lstep true false ⟨[7], false, false, true, [], []⟩ .poll = ⟨[7], false, false, true, [], []⟩ := by decide
+    rw [this]; exact ih
+
+-- non-vacuity
+example : (runAccept [0, 6] [3] true [(.init, .fail 11), (.read, .conn 9), (.mark, .conn 4), (.read, .conn 10), (.close, .fail 0)]).handlers = [9, 10] := by decide
+example : (runAccept [0, 6] [3] false [(.init, .fail 11), (.hup, .conn 4), (.read, .conn 9), (.read, .conn 10)]) = ⟨.accepted 9, [], [9], 2, 3⟩ := by decide
+example : (lrun true true LSt.init [.startLoop, .arrive 1, .arrive 2, .poll, .poll]).handled = [1, 2] := by decide
+example : (lrun true true LSt.init [.arrive 7, .poll, .startAccept]).returned = [7] := by decide
+example : runConnect [1, 0, 2] [3] [(.init, .ok 0), (.mark, .ok 0), (.write, .ok 111), (.hup, .ok 0)] = ⟨.failed (.soError 111), true, 1, 3⟩ := by decide
+
+/-- ★ `net/send-to`, one datagram per call: against a kernel that sends datagrams atomically (answers with the whole
+    length or fails) the operation ends with the first answered call — after any EINTR retries before it —, that call asked
+    for the whole message at offset 0, and nothing is sent twice. -/
+theorem sendto_one_datagram_per_call (len m : Nat) (as : List Ans) (hl : 0 < len) (hm : len ≤ m) :
+    (writeEvent len true 0 (.bytes m :: as)).res = .done ∧ (writeEvent len true 0 (.bytes m :: as)).calls = [⟨0, len, len⟩] ∧
+    (writeEvent len true 0 (.eintr :: .bytes m :: as)).res = .done ∧
+    (writeEvent len true 0 (.eintr :: .bytes m :: as)).calls = [⟨0, len, 0⟩, ⟨0, len, len⟩] := by
+  have h1 : min m len = len := Nat.min_eq_right hm
+  have h2 : ¬ len = 0 := by omega
+  simp [writeEvent, writeCall, hl, h1, h2]
+
+/-- ★ `(ev/read stream :all)` = chunked read of 2^31-1 bytes: a chunked read that asks for more than will ever arrive
+    never returns "full"; when it returns a buffer the stream has ended (or reported an error condition) and the buffer
+    holds exactly the bytes taken from the kernel, which are a prefix of the arrival sequence with nothing lost. -/
+theorem read_all_returns_everything_before_eof {α : Type} (limC base n : Nat) (inc : List α) (evs : List REv) (r : RReason)
+    (hn : inc.length < n) :
+    let t := runRead true false limC base (rInit n inc) evs
+    t.res = .buf r → (r = .eof ∨ r = .errEvent) ∧ t.st.got ++ t.st.inc = inc := by
+  intro t hr
+  have h1 := read_at_most_n true false limC base n inc evs
+  have h2 := chunk_exact_unless_eof false limC base n inc evs r hr
+  refine ⟨?_, h1.2.1⟩
+  rcases h2 with ⟨_, hfull⟩ | h | h
+  · exfalso
+    have h3 : (t.st.got ++ t.st.inc).length = inc.length := by rw [h1.2.1]
+    rw [List.length_append] at h3
+    have h4 : t.st.got.length = n := hfull
+    omega
+  · exact Or.inl h
+  · exact Or.inr h
+
+end Sockets
 
 end JanetModel.Props.C16
